@@ -14,7 +14,7 @@ def scenarios(ctx: Ctx) -> list:
     out = []
     for k in range(n):
         nd = rng.choice([5, 8, 12, 20]) if not ctx.thorough else rng.choice([5, 12, 30, 60])
-        out.append(cf.gen_scenario(rng, 'c05-%d' % k, nd, with_dups=True, listeners=1, browsers=0,
+        out.append(cf.gen_scenario(rng, 'c05-%d' % k, nd, with_dups=True, listeners=rng.choice([1, 1, 2]), lscripts='purge', browsers=0,
                                    thorough=ctx.thorough))
     return out
 
